@@ -39,6 +39,12 @@ CHECKS = {
               "on-grid sinusoids with drawn phase; ~1.6k quick, ~160k thorough.",
         note=_NOTE,
         technique="property-based testing (Hypothesis): reference-model (direct DFT), metamorphic and round-trip oracles"),
+    "C07": dict(
+        level="Generated search against a long-double per-target loop of the Konno-Ohmachi definition with a derived conditioning bound: direct form, deprecated alias, "
+              "object level after every setter, matrix entries / column sums / matrix-vs-direct form, range / constant / scaling / additivity consequences, bandwidth "
+              "limits against a margin-filtered scan; targets exactly on, ulps beside, inside and far outside the Fourier grid; ~2k quick, ~190k thorough.",
+        note=_NOTE,
+        technique="property-based testing (Hypothesis): reference-model, differential and metamorphic oracles"),
     "C08": dict(
         level="Generated search over records (float/int/list), dt and integration mode against a long-double loop over the defining increments "
               "(equality on dyadic data), closed forms for constant/linear acceleration, exact peak / sign / 2^k laws.",
@@ -70,6 +76,12 @@ CHECKS = {
               "against a reference built from the reference switched peaks; inverse, scaling, identical-component and array-b relations; ~1.2k quick, ~88k thorough.",
         note=_NOTE,
         technique="property-based testing (Hypothesis): reference-model + metamorphic oracles"),
+    "C14": dict(
+        level="Generated search over (dt, target) pairs (independent, commensurate, thousandths, +-ulp neighbours of integer quotients, equal) with exact rational step/"
+              "ratio/length rules, bitwise retention on refinement, subsequence on decimation, range; Fourier resampling of band-limited periodic signals built in long "
+              "double; ~4k quick, ~320k thorough.",
+        note=_NOTE + " Open known finding C14-KF1 (reported step != SciPy's actual spacing for incommensurate lengths) routes those cases to reproduction on SciPy's grid.",
+        technique="property-based testing (Hypothesis): validity-predicate (exact rationals) + reference-model oracles"),
     "C15": dict(
         level="Generated search against a long-double O(n^2) evaluation of the S-transform definition (n <= 160) and its per-row inverse-FFT form (n <= 1024); both "
               "implementations, linearity, Fourier marginal, inverse, dominant frequency on on-grid cosines with drawn phase; ~3k quick, ~37k thorough.",
@@ -80,6 +92,13 @@ CHECKS = {
               "[1e-4,100] on both sides of 1 s, labels over printable ASCII, every loader entry point and factor m; ~1k quick, ~80k thorough.",
         note=_NOTE + " 'Same to 6 / 4 decimals' is read literally (within half a unit of the last kept decimal).",
         technique="property-based testing (Hypothesis): save/load round-trip oracle with a rational model of the format's rounding"),
+    "C17": dict(
+        level="Generated search: sinusoids in pass / transition / stop band against the closed-form squared digital Butterworth gain (validated against scipy's zpk "
+              "design at import) for all types, orders 1-4, Gibbs modes and cut-off containers; linearity with a conditioning-scaled bound; detrending via an orthonormal "
+              "polynomial basis (projection, idempotence, invariance); exact element-wise adds and required rejections; running average against a long-double loop; "
+              "~1.9k quick, ~115k thorough.",
+        note=_NOTE + " Open known finding C17-KF1 (ill-conditioned (b, a) band-pass designs) routes designs failing the conditioning guard to length/dt checks only.",
+        technique="property-based testing (Hypothesis): reference-model (analytic gain, projections), metamorphic and rejection oracles"),
     "C18": dict(
         level="Generated search: rotation against a long-double reference and exact-rational angle grid, rotated-measure scans for named parameters and callables "
               "(bitwise vs per-angle measures), lag matching on clusters of 2-4 lagged copies of a record with pairwise distinct samples (equal and unequal "
